@@ -4,6 +4,17 @@ _SUFFIX = (' Decides the structural necessary condition(s) named, on every path 
            'current source; does not decide the run-time behaviour itself.')
 
 CLAIMED = {
+    'C13': {
+        'text': 'R13.1 alias/effect analysis: for every document parameter of the public API (diff, diff_notebooks, patch*, '
+                'decide_merge*, merge_notebooks, apply_decisions, pretty_print_*) no store/del/augmented-assign/mutator reaches an '
+                'object reachable from it -- forward alias tracking with nesting depth inside each function, parameter-mutation '
+                'and return-alias summaries to a fixpoint over the package, registry/dynamic dispatch included; pop+restore '
+                'pairs accepted. R13.2 every site that places a sub-object of an input into a result without copying is '
+                'enumerated; the 27 existing sites are recorded known findings, a new site is a violation.' + _SUFFIX,
+        'note': 'Heap flow (references stored in object attributes and read back in another function) is not followed; types are '
+                'unknown (aug-assign on names counts only for container displays). Two named exemptions with reasons.',
+        'technique': 'static analysis: interprocedural alias + in-place-mutation effect summaries (ownership-style)',
+    },
     'C14': {
         'text': 'R14.1 the category->path table of set_notebook_diff_targets equals, per category, the set of starred paths at which '
                 'the nbformat 4.5 schema declares that field (key filters only on leaves); R14.2 flags are wired to same-named '
